@@ -233,3 +233,7 @@ impl<'a> Deref for CsptpMessage<'a> {
         &self.message
     }
 }
+
+#[cfg(all(test, pendulum_project_ntpd_rs_verif))]
+#[path = "/verif/harness/statime-csptp/hook_messages.rs"]
+mod verif_hook;
